@@ -45,6 +45,7 @@ func (m *Mutex) Unlock() {
 	}
 	m.locked = false
 	vsched.Record("Unlock", 0, 0, true)
+	vsched.Yield("Unlock-after") // see Pool.Put
 }
 
 func (m *Mutex) unlockNoYield() { m.locked = false }
@@ -136,6 +137,9 @@ func (p *Pool) Get() interface{} {
 func (p *Pool) Put(x interface{}) {
 	vsched.Yield("PoolPut")
 	p.items = append(p.items, x)
+	// a second scheduling point *after* the release: plain (uninstrumented) accesses the
+	// releasing thread still makes to x afterwards can then interleave with the next owner
+	vsched.Yield("PoolPut-after")
 }
 
 // Reset drops pooled items (harness: between runs).
